@@ -422,6 +422,12 @@ ForkDecision(rg, nl) ==
          ELSE [long |-> TRUE, kind |-> "long", f |-> 0]
     ELSE [long |-> FALSE, kind |-> "none", f |-> 0]
 
+\* C04 / C10: the abort after the second, from-genesis proof is the documented one only for a fork that shares none of
+\* the remembered last-N headers (nor the stored tip itself)
+ForkIsLong(b) ==
+    LET c == CommonAnc(world, tip, b) IN
+    c # tip /\ c \notin {lastN[i][2] : i \in 1..Len(lastN)}
+
 RecvProof(p, m, o) ==
     LET s == peer[p] IN
     /\ UNCHANGED <<world, cfg, now>>
